@@ -28,6 +28,7 @@ Definition mkf (id : string) (ps : list sty) (b : fbeh primfo) : fdesc primfo :=
 Definition bnone : fbeh primfo := BNone.
 Definition becho (i : nat) : fbeh primfo := BEcho i.
 Definition bpanic : fbeh primfo := BPanic.
+Definition bconst (v : pvalue) : fbeh primfo := BConst v.
 
 Definition sf_eqb (a b : spec_float) : bool :=
   match a, b with
